@@ -9,49 +9,88 @@ open Jrpc Jrpc.MiniGo Jrpc.Generated.Progs
 theorem get_noReconnect_set (env : Env) (x : String) (v : Val) (h : "c.noReconnect" ≠ x) :
     (env.set x v).get "c.noReconnect" = env.get "c.noReconnect" := Env.get_set_other env x "c.noReconnect" v h
 
-theorem get_min_of_max (env : Env) (a b : Val) :
-    ((env.set "minDelay" a).set "maxDelay" b).get "minDelay" = some a := by
-  rw [Env.get_set_other _ _ _ _ (by decide)]; simp
+/-- The bounds the option configures are sane for every pair given: a positive minimum, a maximum not below it — the
+    hypotheses of `C05_backoff` (repair F47). -/
+theorem eff_sane (a b : Int) : 0 < effMin a ∧ effMin a ≤ effMax a b := by
+  unfold effMax effMin
+  constructor
+  · split <;> omega
+  · simp only []
+    split <;> split <;> (try split) <;> omega
 
-/-- What each option does to the configuration, for every configuration. -/
-theorem applyOpt_eq (o : Opt) (env : Env) :
+/-- What `WithReconnectBackoff(a, b)` does to any configuration: it runs to completion, configures exactly
+    `(effMin a, effMax a b)` and leaves `noReconnect` alone. -/
+theorem applyOpt_backoff (a b : Int) (env : Env) :
+    ∃ env', applyOpt (.backoff a b) env = some env' ∧
+      env'.get "c.reconnectBackoff" = some (backoffVal (effMin a) (effMax a b)) ∧
+      env'.get "c.noReconnect" = env.get "c.noReconnect" := by
+  by_cases ha : a ≤ 0 <;> by_cases hb : b ≤ 0
+  · simp (disch := decide) [applyOpt, prog_WithReconnectBackoff_lit1, run, exec, eval, MiniGo.bind, bindMany, Env.bind1,
+      Val.toList, Val.ofList, binop, Out.env?, optExt, kvOf, Env.get_set_other, ha, hb]
+    simp [backoffVal, effMin, effMax, ha, hb, Val.ofList]
+  · by_cases hc : b < 100000000
+    all_goals
+      simp (disch := decide) [applyOpt, prog_WithReconnectBackoff_lit1, run, exec, eval, MiniGo.bind, bindMany, Env.bind1,
+        Val.toList, Val.ofList, binop, Out.env?, optExt, kvOf, Env.get_set_other, ha, hb, hc]
+      simp [backoffVal, effMin, effMax, ha, hb, hc, Val.ofList]
+  · by_cases hc : 5000000000 < a
+    all_goals
+      simp (disch := decide) [applyOpt, prog_WithReconnectBackoff_lit1, run, exec, eval, MiniGo.bind, bindMany, Env.bind1,
+        Val.toList, Val.ofList, binop, Out.env?, optExt, kvOf, Env.get_set_other, ha, hb, hc]
+      simp [backoffVal, effMin, effMax, ha, hb, hc, Val.ofList]
+  · by_cases hc : b < a
+    all_goals
+      simp (disch := decide) [applyOpt, prog_WithReconnectBackoff_lit1, run, exec, eval, MiniGo.bind, bindMany, Env.bind1,
+        Val.toList, Val.ofList, binop, Out.env?, optExt, kvOf, Env.get_set_other, ha, hb, hc]
+      simp [backoffVal, effMin, effMax, ha, hb, hc, Val.ofList]
+
+/-- What the other options do to the configuration, for every configuration. -/
+theorem applyOpt_eq_simple (o : Opt) (env : Env) (h : ∀ a b, o ≠ .backoff a b) :
     applyOpt o env = some (match o with
       | .noReconnect => env.set "c.noReconnect" (.bool true)
-      | .backoff a b => ((env.set "minDelay" (.int a)).set "maxDelay" (.int b)).set "c.reconnectBackoff"
-          (.tag "backoff" (Val.ofList [.cons (.str "minDelay") (.int a), .cons (.str "maxDelay") (.int b)]))
+      | .backoff _ _ => env
       | .ping d => (env.set "d" (.int d)).set "c.pingInterval" (.int d)
       | .timeout d => (env.set "d" (.int d)).set "c.timeout" (.int d)) := by
   cases o with
   | noReconnect => mgsimps [applyOpt, optExt, Out.env?, prog_WithNoReconnect_lit1]
-  | backoff a b => mgsimps [applyOpt, optExt, Out.env?, prog_WithReconnectBackoff_lit1, kvOf, get_min_of_max]
+  | backoff a b => exact absurd rfl (h a b)
   | ping d => mgsimps [applyOpt, optExt, Out.env?, prog_WithPingInterval_lit1]
   | timeout d => mgsimps [applyOpt, optExt, Out.env?, prog_WithTimeout_lit1]
 
 /-- Every option runs to completion on every configuration. -/
-theorem applyOpt_total (o : Opt) (env : Env) : ∃ env', applyOpt o env = some env' := ⟨_, applyOpt_eq o env⟩
+theorem applyOpt_total (o : Opt) (env : Env) : ∃ env', applyOpt o env = some env' := by
+  cases o with
+  | backoff a b => obtain ⟨e, h, _⟩ := applyOpt_backoff a b env; exact ⟨e, h⟩
+  | noReconnect => exact ⟨_, applyOpt_eq_simple .noReconnect env (by intro a b h; cases h)⟩
+  | ping d => exact ⟨_, applyOpt_eq_simple (.ping d) env (by intro a b h; cases h)⟩
+  | timeout d => exact ⟨_, applyOpt_eq_simple (.timeout d) env (by intro a b h; cases h)⟩
 
 /-- `WithNoReconnect` sets the flag … -/
 theorem applyOpt_noReconnect_sets (env : Env) :
     ∃ env', applyOpt .noReconnect env = some env' ∧ env'.get "c.noReconnect" = some (.bool true) :=
-  ⟨_, applyOpt_eq .noReconnect env, by simp⟩
+  ⟨_, applyOpt_eq_simple .noReconnect env (by intro a b h; cases h), by simp⟩
 
 /-- … and no option ever clears it. -/
 theorem applyOpt_keeps_noReconnect (o : Opt) (env env' : Env)
     (h : applyOpt o env = some env') (hset : env.get "c.noReconnect" = some (.bool true)) :
     env'.get "c.noReconnect" = some (.bool true) := by
-  rw [applyOpt_eq] at h
-  cases h
   cases o with
-  | noReconnect => simp
+  | noReconnect =>
+    rw [applyOpt_eq_simple .noReconnect env (by intro a b h; cases h)] at h
+    cases h; simp
   | backoff a b =>
-    show (((env.set "minDelay" _).set "maxDelay" _).set "c.reconnectBackoff" _).get "c.noReconnect" = _
-    rw [get_noReconnect_set _ _ _ (by decide), get_noReconnect_set _ _ _ (by decide), get_noReconnect_set _ _ _ (by decide)]
-    exact hset
+    obtain ⟨e, he, _, hk⟩ := applyOpt_backoff a b env
+    rw [he] at h; cases h
+    rw [hk]; exact hset
   | ping d =>
+    rw [applyOpt_eq_simple (.ping d) env (by intro a b h; cases h)] at h
+    cases h
     show ((env.set "d" _).set "c.pingInterval" _).get "c.noReconnect" = _
     rw [get_noReconnect_set _ _ _ (by decide), get_noReconnect_set _ _ _ (by decide)]
     exact hset
   | timeout d =>
+    rw [applyOpt_eq_simple (.timeout d) env (by intro a b h; cases h)] at h
+    cases h
     show ((env.set "d" _).set "c.timeout" _).get "c.noReconnect" = _
     rw [get_noReconnect_set _ _ _ (by decide), get_noReconnect_set _ _ _ (by decide)]
     exact hset
@@ -101,6 +140,17 @@ theorem noReconnect_sticks (os : List Opt) (env : Env) (h : Opt.noReconnect ∈ 
         | head => exact absurd rfl ho
         | tail _ ht => exact ht
       exact ih e1 hin
+
+/-- C05 ("redial attempts are spaced by the configured backoff, never a busy loop"), configuration half, over the
+    regenerated option closure: whatever pair `WithReconnectBackoff` is given — zero, negative, maximum below minimum — the
+    bounds it configures satisfy the hypotheses of `C05_backoff` (`0 < minDelay ≤ maxDelay`), so every redial delay lies in
+    `[minDelay, maxDelay]` with a positive lower end (repair F47). -/
+theorem backoff_option_sane (a b : Int) (env : Env) :
+    ∃ env', applyOpt (.backoff a b) env = some env' ∧
+      env'.get "c.reconnectBackoff" = some (backoffVal (effMin a) (effMax a b)) ∧
+      0 < effMin a ∧ effMin a ≤ effMax a b := by
+  obtain ⟨e, h, hg, _⟩ := applyOpt_backoff a b env
+  exact ⟨e, h, hg, eff_sane a b⟩
 
 /-- Non-vacuity: the order the fourth round's seeded change needed. -/
 example : ∃ env', applyOpts [.noReconnect, .backoff 100 5000, .timeout 30] [] = some env' ∧
